@@ -57,6 +57,13 @@ class GreedyRealizes(NativeCase):
         deep = ["AND DUP15 GT", "DUP16 DUP16 SUB SWAP16 POP", "SWAP16 SWAP15 SUB SWAP14 ADD", "DUP14 DUP16 LT DUP15 SWAP16 SUB ADD",
                 "DUP2 DUP2 MSTORE8 ADD", "DUP1 DUP3 MSTORE8 DUP2 DUP4 MSTORE8 POP POP POP"]
         blocks += deep
+        # deep stacks: about 20 live elements, an element far down has to be dropped (clean_stack, finding F32)
+        blocks += ["SWAP14 DIV DIV GT MUL OR OR XOR OR EQ GT MUL EQ SWAP12 GT LT SHL SWAP2 POP SWAP1"]
+        bin_ops = ["ADD", "MUL", "SUB", "DIV", "AND", "OR", "XOR", "LT", "GT", "EQ", "SHL"]
+        for _ in range(60 if tier == 'quick' else 600):
+            t = ["SWAP%d" % rnd.randint(11, 16)] + [rnd.choice(bin_ops) for _ in range(rnd.randint(8, 12))] + ["SWAP%d" % rnd.randint(8, 14)]
+            t += [rnd.choice(bin_ops) for _ in range(rnd.randint(3, 6))] + rnd.choice((["SWAP2", "POP", "SWAP1"], ["SWAP1", "POP"], ["POP"], ["SWAP3", "POP"]))
+            blocks.append(" ".join(t))
         n = ok_runs = errs = 0
         for b in blocks:
             toks = corpus.tokens(b)
@@ -64,7 +71,7 @@ class GreedyRealizes(NativeCase):
                 depth = utils.compute_stack_size(plain_names(toks))
             except Exception:
                 continue
-            if depth > 17:
+            if depth > 26:
                 continue
             for policy in ((dict(),) if tier == 'quick' else (dict(), dict(storage=True), dict(part=True))):
                 pipeline.reset_sticky_globals()
